@@ -2889,7 +2889,12 @@ def m_string_reserve(I, c, r, *n):
 
 @model('$S::capacity')
 def m_string_capacity(I, c, r):
-    return len(strbuf_of(r).b)
+    """String: the smallest capacity the value can have (0 for String::new()); SmartString: the inline buffer holds
+    23 bytes on 64-bit targets, so capacity() is 23 while the string is inline"""
+    n = len(strbuf_of(r).b)
+    if c.self_ty is not None and head(c.self_ty) == 'SmartString':
+        return max(23, n)
+    return n
 
 
 @model('$S::into_bytes', '$S::as_bytes')
@@ -3575,3 +3580,24 @@ def m_range_contains(I, c, r, x):
 @model('RangeInclusive::new')
 def m_range_incl_new(I, c, a, b):
     return Adt('RangeInclusive', None, [a, b])
+
+
+
+@model('Deserialize::deserialize@String')
+def m_string_deserialize(I, c, de):
+    """serde's impl Deserialize for String: its visitor accepts str / String and UTF-8 bytes, nothing else"""
+    d = deref_all(de)
+    if d.kind in ('str', 'borrowed_str', 'string'):
+        return Ok(StringBuf(d.payload))
+    if d.kind == 'bytes':
+        if utf8_valid(I, list(d.payload)):
+            return Ok(StringBuf(d.payload))
+        return Err(DeError('invalid value: bytes'))
+    return Err(DeError('invalid type: %s, expected a string' % d.kind))
+
+
+
+@model('str::parse')
+def m_str_parse(I, c, s):
+    """str::parse::<F>() is F::from_str"""
+    return I.trait_call('FromStr', 'from_str', c.margs[0], [RStr(sbytes(s))])
